@@ -93,6 +93,28 @@ def main(args):
         rnok, rbad, _ = judge.judge_trace("ResTrace.tla", "ResTrace.cfg", p, o, "resource trace " + what)
         log("[selftest] resource trace, %s -> %s" % (what, [b["clause"] for b in rbad][:2] or "accepted (%s steps)" % rnok))
         ok = ok and (bool(rbad) if drop else not rbad)
+    # (d2) object life cycles (LibLifecycle.tla): a pristine run, then one acknowledged record removed from a writer's final file content, then a
+    #      deviation from the strict phase table that harms nothing (must be a note, not a verdict)
+    lw = common.scratch("selftest-liblife")
+    ltrace = os.path.join(lw, "trace.ndjson")
+    lseqs = [{"kind": "fw", "ops": ["open", "write", "writesync", "close", "write"]}, {"kind": "fr", "ops": ["open", "read", "skip", "read", "read"]},
+             {"kind": "mm", "ops": ["at2", "open", "seek0", "close", "close"]}]
+    judge.run_driver(binary, "liblife", {"dir": lw, "seqs": lseqs}, ltrace)
+    levs = common.read_ndjson(ltrace)
+    for what, mut in (("pristine", None), ("lost acknowledged record", "final"), ("second Close succeeds", "reply")):
+        c = json.loads(json.dumps(levs))
+        if mut == "final":
+            c[0]["final"] = c[0]["final"][:-1]
+        elif mut == "reply":
+            c[2]["calls"][4]["r"] = "ok"      # (the mmap reader's second Close does succeed: make it the file reader's sequence instead)
+            c[1]["calls"] = [{"op": "open", "r": "ok"}, {"op": "close", "r": "ok"}, {"op": "close", "r": "ok"}]
+        pth = ltrace + "." + (mut or "pristine")
+        common.write_ndjson(pth, c)
+        _, lbad, _ = judge.judge_trace("LibLifecycleTrace.tla", "LibLifecycleTrace.cfg", pth, o, "object life cycle " + what)
+        verdicts = [b["clause"] for b in lbad if not b["clause"].startswith("note:")]
+        notes = [b["clause"] for b in lbad if b["clause"].startswith("note:")]
+        log("[selftest] object life cycles, %s -> verdicts %s, notes %s" % (what, verdicts or "none", notes or "none"))
+        ok = ok and ((mut == "final") == bool(verdicts)) and ((mut == "reply") == bool(notes))
     # (e) judge unit test (Correction 14): two clients with the same delete in flight; only the stale read (idx 4) may be rejected
     here = os.path.dirname(os.path.abspath(__file__))
     _, cbad, _ = judge.judge_trace("CrashJudge.tla", "CrashJudge.cfg", os.path.join(here, "..", "spec", "tests", "crashjudge_two_deletes_in_flight.ndjson"), o, "crash judge unit test")
